@@ -1130,4 +1130,6 @@ isnull = isna
 
 
 def __getattr__(name):
+    if name.startswith('__'):
+        raise AttributeError(name)
     raise ModelGap("pandas.%s is not modelled" % name)
